@@ -78,6 +78,8 @@ def main(p):
         flat = moved.reshape(-1, *moved.shape[len(axes):])
         out = np.apply_along_axis(f, 0, flat)
         return np.expand_dims(out, axes) if keepdims else out
+    import warnings
+    warnings.simplefilter("ignore")
     try:
         if k == "apply":
             got = utils.apply_along_axes(lambda lane: float(np.sum(lane * np.arange(1, lane.size + 1))), x, axis)
@@ -88,7 +90,7 @@ def main(p):
             f = stats.estimate_scale if k == "scale" else stats.estimate_loc
             got = np.asarray(f(x, p["method"], axis, keepdims=p["keepdims"]))
             want = lanes(lambda lane: float(f(lane, p["method"])), p["keepdims"])
-            if got.shape != np.asarray(want).shape or not np.allclose(got, want):
+            if got.shape != np.asarray(want).shape or not np.allclose(got, want, equal_nan=True):
                 bad.append(f"estimate_{k}({p['method']}, axis={axis}, keepdims={p['keepdims']}) = {got.tolist()} but the 1-D estimator per lane gives {np.asarray(want).tolist()}")
         else:
             for xc in (np.ones(shape), np.where(np.indices(shape).sum(axis=0) % 3 == 0, 2.0, 1.0) * 0 + x, None):
